@@ -2,10 +2,23 @@
 package c14
 
 import (
+	"github.com/alttpo/snes/emulator"
+	"github.com/alttpo/snes/emulator/memory"
+
 	"verif/harness/cpuenv"
 	"verif/spec/w65816"
 	"verif/vp"
 )
+
+// sys2 is a second System over SpecMem (for with/without-logger comparisons).
+var sys2 = func() *emulator.System {
+	s := &emulator.System{}
+	if err := s.Bus.Attach(memory.NewRAM(cpuenv.SpecMem, 0), "ram", 0x000000, 0xFFFFFF); err != nil {
+		panic(err)
+	}
+	s.CPU.Init(&s.Bus)
+	return s
+}()
 
 type sink struct {
 	b        []byte
@@ -302,7 +315,7 @@ var alphabet = [][]uint8{
 // registers, flags, cycle totals and memory as running it without one; one line per instruction
 // about to execute.
 func LoggerOnOff(prog int, k int, maxBudget int) {
-	s1, s2 := cpuenv.Sys, cpuenv.Sys2
+	s1, s2 := cpuenv.Sys, sys2
 	pre := cpuenv.ArbitraryPre(1, 1, 0)
 	pre.Interrupt &= 1
 	// the programs store through the data bank and push on the stack (bank 0): keep both away from the
@@ -359,7 +372,7 @@ func LoggerOnOff(prog int, k int, maxBudget int) {
 // maxBudget cycles (several hundred), compared with the untraced run. Control flow is concrete (the
 // program is BRA -2); only the budget test forks.
 func LoggerLongRun(maxBudget int) {
-	s1, s2 := cpuenv.Sys, cpuenv.Sys2
+	s1, s2 := cpuenv.Sys, sys2
 	pre := cpuenv.ArbitraryPre(1, 1, 0)
 	pre.Interrupt &= 1
 	pre.Cycles = 3
